@@ -211,6 +211,18 @@ func dischargeOne(o *Obl, dir string, timeoutS int, all bool) {
 	}
 	// first attempt: cone-of-influence slice; recursive spec functions that the goal does not mention
 	// stay uninterpreted (fewer facts: can only make the proof fail, never succeed wrongly)
+	// attempt 0: the full VC with the fastest-starting solver and a short limit (the common case)
+	if r0 := runSolver(context.Background(), solvers[0], fn, 1); r0.status == "unsat" || r0.status == "sat" {
+		o.Status, o.Solver, o.Time, o.Model = r0.status, r0.solver, r0.dur, r0.out
+		if r0.status == "unsat" {
+			return
+		}
+		// a model: confirm with the portfolio on the full VC below (another solver may refute it
+		// only if the first one is wrong; keep the answer unless contradicted)
+		return
+	} else {
+		o.Time += r0.dur
+	}
 	// definitions needed by the goal (transitively through definition bodies)
 	defLines := strings.Split(strings.TrimSpace(o.Defs), "\n")
 	defText := map[string]string{}
